@@ -353,6 +353,8 @@ def run(report, tier, only=None):
         for layout in (["two_dirs"] if tier == "quick" else ["two_dirs", "one_dir"]):
             for fmt in FORMATS:
                 for d in devs:
+                    if len(d) > 1 and fmt in ("cbdt", "untouchedsvg"):
+                        continue  # two deviations at once for the vector and picosvg formats only (time)
                     cases.append(dict(d, fmt=fmt, n=n, layout=layout))
         res = listing.run(report, cases, execute, timeout=900, jobs=6)
         realised = wanted = 0
